@@ -242,8 +242,38 @@ def rule_R7_format(text: str, counts: dict) -> str:
     return "".join(out)
 
 
+def rule_R10_mut_self(text: str, counts: dict) -> str:
+    """R10: Verus rejects a `mut self` parameter.  `fn f(mut self, ..) { B }` becomes
+    `fn f(self, ..) { let mut this = self; B[self := this] }` - rebinding a by-value parameter into a
+    mutable local is the same program."""
+    shape = rustlex.fn_shape(text)
+    sig = text[:shape.sig_end]
+    m = re.search(r"\(\s*mut\s+self\b", sig)
+    if not m:
+        return text
+    sig2 = sig[:m.start()] + re.sub(r"mut\s+self", "self", sig[m.start():m.end()]) + sig[m.end():]
+    body = text[shape.sig_end:]
+    toks = rustlex.lex(body)
+    out = []
+    first_brace = True
+    for t in toks:
+        if t.kind == "ident" and t.text == "self":
+            out.append("this")
+        elif first_brace and t.kind == "punct" and t.text == "{":
+            out.append("{ let mut this = self;")
+            first_brace = False
+        else:
+            out.append(t.text)
+    counts["R10"] = counts.get("R10", 0) + 1
+    return sig2 + "".join(out)
+
+
 def keep_attr(a: str) -> bool:
     return False
+
+
+def keep_outer_attr(a: str) -> bool:
+    return bool(re.match(r"#\[repr\(", a))
 
 
 def rule_R4_strip(text: str, counts: dict) -> str:
@@ -478,11 +508,14 @@ class UnitBuilder:
         text = rule_R2_ref_patterns(text, self.counts)
         if it.kind == "fn":
             text = rule_R7_format(text, self.counts)
+            text = rule_R10_mut_self(text, self.counts)
         for rule, frm, to in self.spec.rewrites:
             text = rule_R3_token_replace(text, frm, to, rule, self.counts)
         # R4 on the full item text (attributes before decl were already excluded by using it.decl)
         pre_attr = src[it.start:it.decl]
         text2 = rule_R4_strip(text, self.counts)
+        for m_attr in re.finditer(r"#\[repr\([^\]]*\)\]", pre_attr):
+            text2 = m_attr.group(0) + " " + text2
         derive = re.search(r"#\[derive\(([^)]*)\)\]", pre_attr)
         if derive:
             kept = [d.strip() for d in derive.group(1).split(",") if d.strip() in ("Clone", "Copy")]
